@@ -16,7 +16,7 @@ RULE = ("cases = every index expression of length <= MaxLen over {int, full slic
         "permutation and cycle notation; non-trivial = advanced indexing (adjacent/separated/int+array/2-D mask), Ellipsis, point at "
         "infinity, cycle notation")
 IDX_INVS = ["ProvInjective", "TypesFollowProvenance", "RankLaw"]
-AR_INVS = ["TensorLaws", "PointLaws", "TransposeIsPerm"]
+AR_INVS = ["TensorLaws", "PointLaws", "TransposeIsPerm", "TensorProductAxes"]
 
 
 def make_index(ix, sizes):
@@ -236,6 +236,37 @@ def replay_arith(recs):
                         ok, obs = False, f"raised {type(e).__name__}: {e}"
                     if not ok:
                         out.append(dict(site=f"Point {name}", stratum="non-point-operand", case={"p": r["p"], "array": arr.tolist()}, expected=exp.tolist(), observed=obs))
+        elif t == "tprod":
+            ty1, ty2, src = r["ty1"], r["ty2"], r["src"]
+            a1 = (np.arange(int(np.prod([2, 3, 4][:len(ty1)]))) + 2).reshape([2, 3, 4][:len(ty1)])
+            a2 = (np.arange(int(np.prod([5, 2][:len(ty2)]))) * 3 - 7).reshape([5, 2][:len(ty2)])
+            A = Tensor(a1, covariant=[k for k, x in enumerate(ty1) if x == "cov"])
+            B = Tensor(a2, covariant=[k for k, x in enumerate(ty2) if x == "cov"])
+            want = np.transpose(np.tensordot(a1, a2, 0), [(s_[1] - 1) + (0 if s_[0] == 1 else len(ty1)) for s_ in src])
+            case = {"first": ty1, "second": ty2}
+            try:
+                got = A.tensor_product(B)
+                cov = sorted(k for k, x in enumerate(r["rty"]) if x == "cov")
+                con = sorted(k for k, x in enumerate(r["rty"]) if x == "con")
+                ok = (np.asarray(got.array).shape == want.shape and np.array_equal(np.asarray(got.array), want)
+                      and sorted(got._covariant_indices) == cov and sorted(got._contravariant_indices) == con)
+                # the law that gives the index types their meaning: contracting a covariant index of the product with a vector
+                # is the product of the contracted factor with the other factor
+                if ok and "cov" in ty1:
+                    k1 = ty1.index("cov")
+                    v = np.arange(1, a1.shape[k1] + 1)
+                    lhs = np.tensordot(np.asarray(got.array), v, ([cov[0]], [0]))
+                    A1 = np.tensordot(a1, v, ([k1], [0]))
+                    ty1b = [x for k, x in enumerate(ty1) if k != k1]
+                    rhs = np.asarray(Tensor(A1, covariant=[k for k, x in enumerate(ty1b) if x == "cov"]).tensor_product(B).array) if ty1b else None
+                    if rhs is not None and not (lhs.shape == rhs.shape and np.array_equal(lhs, rhs)):
+                        ok = False
+                obs = {"shape": list(got.shape), "covariant": sorted(got._covariant_indices), "contravariant": sorted(got._contravariant_indices),
+                       "equal_as_arrays": bool(np.asarray(got.array).shape == want.shape and np.array_equal(np.asarray(got.array), want))}
+            except Exception as e:  # noqa: BLE001
+                ok, obs = False, f"raised {type(e).__name__}: {e}"
+            if not ok:
+                out.append(dict(site="Tensor.tensor_product", stratum=st, case=case, expected={"axes": src, "types": r["rty"]}, observed=obs))
         elif t == "transpose":
             rank, nfree, ty = r["rank"], r["nfree"], r["ty"]
             sizes = [2, 3, 4, 5][:rank]
@@ -338,14 +369,16 @@ def run(ctx: Ctx):
         cfg4 = cfg_text(constants={"MaxLen": 4, "MaxRank": t["maxrank"], "DoDump": True}, invariants=IDX_INVS, constraints=["Dump"]) + "\nCONSTANT Items <- ItemsSmall\n"
         r4 = ctx.tlc("C19_Index", cfg4, name="C19_Index-len4", dump=True)
         idx += [x for x in read_dump(r4["dump"]) if len(x["ix"]) == 4]
-    cfg2 = cfg_text(constants={"Tasks": {S("tens"), S("pts"), S("transpose")}, "DoDump": True}, invariants=AR_INVS, constraints=["Dump"])
+    cfg2 = cfg_text(constants={"Tasks": {S("tens"), S("pts"), S("transpose"), S("tprod")}, "DoDump": True}, invariants=AR_INVS, constraints=["Dump"])
     r2 = ctx.tlc("C19_Arith", cfg2, dump=True)
     ar = list(read_dump(r2["dump"]))
     strata = {}
     for x in idx + ar:
         strata[x["s"]] = strata.get(x["s"], 0) + 1
     for need in ("basic", "basic/ellipsis", "adv-adjacent", "adv-separated", "int+array/adjacent", "int+array/separated", "bool-2d",
-                 "tensor/tensor", "tensor/ndarray", "tensor/pyscalar", "point-at-infinity", "finite", "transpose/cycle", "transpose/perm"):
+                 "tensor/tensor", "tensor/ndarray", "tensor/pyscalar", "point-at-infinity", "finite", "transpose/cycle", "transpose/perm",
+                 "tensor_product/first-factor-contravariant-before-covariant", "tensor_product/second-factor-contravariant-before-covariant",
+                 "tensor_product/covariant-first-factors"):
         if not strata.get(need):
             raise MachineryError(f"stratum {need} never visited (vacuous)")
     ctx.log(f"{len(idx)} index cases, {len(ar)} arithmetic cases")
